@@ -61,10 +61,20 @@ Judge(ev) ==
                 ELSE IF ev.eq /\ ~ev.heq THEN "bad:hash"
                 ELSE "ok"
 
+\* every result object, when normalised, must give the canonical form of its own value
+ResNorm(ev) ==
+    IF ev.op \notin {"make", "mul", "div", "pow", "mulnum", "rdiv", "divnum"} THEN "ok"
+    ELSE IF Inexact(ev.resn) THEN "bad:inexact"
+    ELSE IF DIsOOR(D(Items(ev.res))) \/ DIsOOR(D(Items(ev.resn))) THEN "ok"
+    ELSE IF D(Items(ev.resn)) # D(Items(ev.res)) THEN "bad:result-normalisation-value"
+    ELSE IF ~CanonShape(Items(ev.resn)) \/ ~ev.resn_flag THEN "bad:result-normalisation-shape"
+    ELSE "ok"
 Init == i = 1 /\ ord = {}
 Step ==
     /\ i <= Len(Tr) /\ i' = i + 1
-    /\ LET ev == Tr[i]  j == Judge(ev) IN
+    /\ LET ev == Tr[i]
+           j0 == Judge(ev)
+           j == IF j0 = "ok" THEN ResNorm(ev) ELSE j0 IN
        /\ IF j = "ok" THEN TRUE ELSE PrintT(<<"QV", j, ev.id, "">>)
        /\ ord' = IF ev.op = "norm" /\ j = "ok" THEN ord \cup InOrder(Items(ev.res)) ELSE ord
 TraceSpec == Init /\ [][Step]_tvars
